@@ -122,21 +122,53 @@ method("_do_fetch", "(%s) -> None" % SELF, props=["C02", "C14"],
                  "self._request_d is None or self._retry_call is None or active(self._retry_call)",
                  "self._fetch_offset != -101 or self.consumer_group"],
        ensures={"one-request[C02]": "implies(old(self._request_d) is not None, n_events('FetchRequest') + n_events('OffsetRequest') "
-                                    "+ n_events('OffsetFetchRequest') == 0)"})
+                                    "+ n_events('OffsetFetchRequest') == 0)",
+                # C02: with nothing outstanding exactly one request goes out, of the kind the position calls for (an offset
+                # lookup for earliest/latest, the committed-offset lookup, else a fetch) ...
+                "request-matches-position[C02]":
+                    "implies(old(self._request_d) is None, "
+                    "n_events('OffsetRequest') == ite(old(self._fetch_offset) == -1 or old(self._fetch_offset) == -2, 1, 0) and "
+                    "n_events('OffsetFetchRequest') == ite(old(self._fetch_offset) == -101, 1, 0) and "
+                    "n_events('FetchRequest') == ite(old(self._fetch_offset) == -1 or old(self._fetch_offset) == -2 "
+                    "or old(self._fetch_offset) == -101, 0, 1))",
+                # ... and its reply / failure is routed to the handlers that carry on from there (the consumer would stall otherwise)
+                "reply-handlers-attached[C02]":
+                    "implies(old(self._request_d) is None, events('Add') == ite(n_events('FetchRequest') == 1, "
+                    "('addCallback:afkak.consumer.Consumer._handle_fetch_response', 'addErrback:afkak.consumer.Consumer._handle_fetch_error'), "
+                    "('addCallbacks:afkak.consumer.Consumer._handle_offset_response,afkak.consumer.Consumer._handle_offset_error',)))",
+                # C13/C02: a retry timer that is still pending is cancelled, not just forgotten (it would fire into a later run)
+                "pending-retry-cancelled[C13]": "implies(old(self._request_d) is None and old(self._retry_call) is not None and "
+                                                "old(active(self._retry_call)), n_events('CancelTimer') == 1)"})
 
 method("_handle_offset_response", "(%s, responses: List[OffsetFetchResponse]) -> None" % SELF, props=["C14", "C03", "C02"],
-       requires=["len(responses) == 1", "self._start_d is not None", "responses[0].offset >= -1", "self.consumer_group",
-                 "not self._stopping"],
+       poly=["responses"],
+       # the same handler serves both lookups ("close enough" in the source): a committed-offset reply and a ListOffsets reply
+       type_instances={"offset-fetch": {"responses": "List[OffsetFetchResponse]"}, "list-offsets": {"responses": "List[OffsetResponse]"}},
+       requires=["len(responses) == 1", "self._start_d is not None", "implies(hasattr(responses[0], 'offset'), self.consumer_group)",
+                 "not self._stopping", "implies(hasattr(responses[0], 'offset'), responses[0].offset >= -1)",
+                 "implies(hasattr(responses[0], 'offsets'), len(responses[0].offsets) >= 1 and responses[0].offsets[0] >= 0)"],
        checkpoints={"call:_do_fetch#1": {
            "delay-reset[C14]": "self.retry_delay == self.retry_init_delay and self._fetch_attempt_count == 1",
-           "resume-after-committed[C02, C03]": "implies(responses[0].offset != -1, self._fetch_offset == responses[0].offset + 1 "
-                                          "and self._last_committed_offset == responses[0].offset)",
-           "no-offset-stored[C14]": "implies(responses[0].offset == -1, self._fetch_offset == ite(self.auto_offset_reset == -1, -1, -2))",
-       }})
+           "request-cleared[C02]": "self._request_d is None",
+           "resume-after-committed[C02, C03]": "implies(hasattr(responses[0], 'offset') and responses[0].offset != -1, "
+                                          "self._fetch_offset == responses[0].offset + 1 and self._last_committed_offset == responses[0].offset)",
+           "no-offset-stored[C14]": "implies(hasattr(responses[0], 'offset') and responses[0].offset == -1, "
+                                    "self._fetch_offset == ite(self.auto_offset_reset == -1, -1, -2))",
+           # C02 "start positions earliest / latest": the position is the offset the broker reported
+           "resolved-position-is-the-reported-offset[C02]": "implies(hasattr(responses[0], 'offsets'), self._fetch_offset == responses[0].offsets[0])",
+       }},
+       ensures={"fetching-resumes[C02]": "n_calls('_do_fetch') == 1"})
 
 
+OUTCOME_LIMIT = "(old(self.request_retry_max_attempts) != 0 and old(self._fetch_attempt_count) >= old(self.request_retry_max_attempts))"
+# (Twisted's CancelledError - `t.CancelledError` - not afkak.common.CancelledError, which is a different class)
+OUTCOME_BENIGN = "(old(self._stopping) and old(exc_is(failure, 't.CancelledError')))"
 method("_handle_offset_error", "(%s, failure: Ref_Failure) -> None" % SELF,
        requires=["self._start_d is not None", "not called(self._start_d)"],
+       # C14: exactly one outcome - nothing for our own cancellation while stopping, the failure surfaces at the attempt
+       # limit, a retry is scheduled otherwise
+       ensures={"one-outcome[C14]": "n_calls('_retry_fetch') == ite(%s or %s, 0, 1) and n_events('Fired') == ite(not %s and %s, 1, 0)"
+                                    % (OUTCOME_BENIGN, OUTCOME_LIMIT, OUTCOME_BENIGN, OUTCOME_LIMIT)},
        checkpoints={
            "fire:errback#1": {"gives-up-only-at-limit[C14]": "self.request_retry_max_attempts != 0 and "
                                                               "self._fetch_attempt_count >= self.request_retry_max_attempts"},
@@ -144,8 +176,14 @@ method("_handle_offset_error", "(%s, failure: Ref_Failure) -> None" % SELF,
                "retries-below-limit[C14]": "self.request_retry_max_attempts == 0 or self._fetch_attempt_count < self.request_retry_max_attempts",
                "request-cleared[C02]": "self._request_d is None"}})
 
+OUTCOME_NOPOLICY = "(old(exc_is(failure, 'OffsetOutOfRangeError')) and self.auto_offset_reset is None)"
 method("_handle_fetch_error", "(%s, failure: Ref_Failure) -> None" % SELF,
        requires=["self._start_d is not None", "not called(self._start_d)"],
+       # C14: exactly one outcome - out of range without a reset policy surfaces at once; our own cancellation while
+       # stopping is ignored; at the attempt limit the failure surfaces; otherwise one retry is scheduled
+       ensures={"one-outcome[C14]": "n_calls('_retry_fetch') == ite(%s or %s or %s, 0, 1) and "
+                                    "n_events('Fired') == ite(%s or (not %s and %s), 1, 0)"
+                                    % (OUTCOME_NOPOLICY, OUTCOME_BENIGN, OUTCOME_LIMIT, OUTCOME_NOPOLICY, OUTCOME_BENIGN, OUTCOME_LIMIT)},
        checkpoints={
            "fire:errback#1": {"fails-only-without-policy[C14]": "exc_is(failure, 'OffsetOutOfRangeError') and self.auto_offset_reset is None "
                                                                 "and self._fetch_offset == old(self._fetch_offset) and n_events('Timer') == 0"},
@@ -160,11 +198,15 @@ method("_handle_fetch_error", "(%s, failure: Ref_Failure) -> None" % SELF,
 
 # ---- C03 -------------------------------------------------------------------------------------------------
 method("_update_processed_offset", "(%s, result: Any, offset: int) -> None" % SELF, props=["C03"],
-       checkpoints={"call:_auto_commit#1": {"records-offset[C03]": "self._last_processed_offset == offset"}})
+       checkpoints={"call:_auto_commit#1": {"records-offset[C03]": "self._last_processed_offset == offset"}},
+       # C03 "count-triggered auto-commits": every successfully processed block gives the count trigger its chance
+       ensures={"count-trigger-consulted[C03]": "n_calls('_auto_commit') == 1"})
 
 method("_update_committed_offset", "(%s, result: Any, offset: int) -> int" % SELF, props=["C03"],
        checkpoints={"call:_deliver_commit_result#1": {"records-acked-offset[C03]": "self._last_committed_offset == offset"}},
-       ensures={"returns-offset[C03]": "result == offset"})
+       ensures={"returns-offset[C03]": "result == offset",
+                # whoever waits on the commit (commit() callers, a graceful shutdown) is told
+                "waiters-notified[C03, C13]": "n_calls('_deliver_commit_result') == 1"})
 
 method("_clear_commit_req", "(%s, result: Any) -> Any" % SELF, props=["C03"], inv_exempt_at_entry=["commit-slot"],
        ensures={"cleared[C03]": "self._commit_req is None"})
@@ -183,7 +225,11 @@ method("_send_commit_request", "(%s, retry_delay: Optional[float] = None, attemp
                  "not self._stopping"],      # reached from commit() (public, see its precondition) or from the retry timer (reactor)
        ensures={"one-request-with-current-offset[C03]":
                 "n_events('CommitRequest') == 1 and event_arg('CommitRequest', 0, 1)[0].offset == old(self._last_processed_offset) "
-                "and event_arg('CommitRequest', 0, 2) == self.commit_consumer_id and event_arg('CommitRequest', 0, 3) == self.commit_generation_id"},
+                "and event_arg('CommitRequest', 0, 2) == self.commit_consumer_id and event_arg('CommitRequest', 0, 3) == self.commit_generation_id",
+                # the acknowledgement is routed to the bookkeeping (C03: "last-committed only holds what the broker acknowledged")
+                # and a failure to the retry / report logic
+                "reply-handlers-attached[C03]": "n_added('_update_committed_offset') == 1 and n_added('_handle_commit_error') == 1 "
+                                                "and n_added('_clear_commit_req') == 1"},
        raises={"OperationInProgress[C03]": "iff:self._commit_req is not None"})
 
 
@@ -226,15 +272,35 @@ method("_handle_fetch_response", "(%s, responses: List[FetchResponse]) -> None" 
                    "implies(n_events('Fired') == 0, self._fetch_offset == messages[len(messages) - 1].offset + 1)",
                "not-while-processing[C02]": "old(self._msg_block_d) is None"},
            "call:append#1": {
+               "from-an-own-partition-response[C02]": "resp.partition == self.partition",
                "strictly-increasing[C02]": "appended.offset >= self._fetch_offset and "
                                            "(len(messages) == 0 or messages[len(messages) - 1].offset < appended.offset)",
                "own-partition[C02]": "appended.partition == self.partition and appended.topic == self.topic"},
            "fire:errback#1": {
                "fails-only-at-max-buffer[C14,C12]": "self.max_buffer_size is not None and self.buffer_size >= self.max_buffer_size"},
+           # C02: a response is skipped only when it is for another partition, a message only when it lies before the position
+           "continue#1": {"skips-foreign-partitions-only[C02]": "resp.partition != self.partition"},
+           "continue#2": {"skips-only-messages-before-the-position[C02]": "message.offset < self._fetch_offset"},
+           # C14/C12: giving up is preceded by surfacing the failure
+           "return#2": {"failure-surfaced-before-giving-up[C14]": "n_events('Fired') == 1"},
            "call:_retry_fetch#1": {
+               # C02: what was extracted is handed to the processing chain before the next fetch is scheduled
+               "extracted-messages-are-processed[C02]": "n_calls('_process_messages') == ite(len(messages) > 0, 1, 0)",
+               # C02/C12 "messages larger than the fetch buffer": a fetch that was too small for the next message is retried
+               # with a strictly larger buffer (at the maximum the failure surfaces instead: return#2); stated for the case
+               # where nothing could be extracted - otherwise the processing chain has already run and may have changed anything
+               "too-small-fetch-grows-the-buffer[C02, C12]": "implies(n_events('Handled:ConsumerFetchSizeTooSmall') == 1 and len(messages) == 0, "
+                                                             "self.buffer_size > old(self.buffer_size))",
                "request-cleared[C02]": "implies(len(messages) == 0, self._request_d is None)",
                "nothing-skipped-on-growth[C14,C12]": "implies(len(messages) == 0, self._fetch_offset == old(self._fetch_offset))",
                "delay-reset[C14]": "implies(len(messages) == 0, self.retry_delay == self.retry_init_delay and self._fetch_attempt_count == 1)"}},
+       ensures={
+           # C02: a reply that arrives while a block is being processed is parked behind the block (handled when it completes),
+           # never dropped, and no fetch is scheduled meanwhile
+           "parked-behind-the-block[C02]": "implies(old(self._msg_block_d) is not None, n_events('Add') == 1 and n_calls('_retry_fetch') == 0 "
+                                           "and n_calls('_process_messages') == 0)",
+           # C02: otherwise the next fetch is scheduled unless the failure was surfaced
+           "refetch-scheduled[C02]": "implies(old(self._msg_block_d) is None, n_calls('_retry_fetch') + n_events('Fired') == 1)"},
        )
 
 
@@ -266,7 +332,12 @@ method("start", "(%s, start_offset: int) -> Ref_Deferred" % SELF, props=["C13"],
        requires=["start_offset != -101 or self.consumer_group"],     # documented: OFFSET_COMMITTED needs a consumer group
        raises={"RestartError[C13]": "iff:self._start_d is not None"},
        checkpoints={"call:_do_fetch#1": {"fresh-run[C13]": "self._start_d is not None and not called(self._start_d) "
-                                                           "and self._fetch_offset == start_offset"}})
+                                                           "and self._fetch_offset == start_offset"}},
+       # a started consumer fetches; with a group and a commit period the auto-commit timer is set up with both of its handlers
+       ensures={"fetching-and-timer-set-up[C02, C03]":
+                "implies(old(self._start_d) is None, n_calls('_do_fetch') == 1 and "
+                "n_added('_commit_timer_stopped') == ite(self.consumer_group and self.auto_commit_every_s, 1, 0) and "
+                "n_added('_commit_timer_failed') == n_added('_commit_timer_stopped'))"})
 
 
 # ---- C13: graceful shutdown ---------------------------------------------------------------------------------
@@ -282,11 +353,15 @@ method("commit", "(%s) -> Ref_Deferred" % SELF, props=["C03", "C13"], modifies=[
            # C03: a new request is issued only when none is outstanding and something new was processed
            "nothing-in-flight[C03]": "self._commit_req is None and old(len(self._commit_ds)) == 0",
            "something-to-commit[C03]": "self._last_processed_offset is not None and self._last_processed_offset != self._last_committed_offset",
-           "group-configured[C03]": "self.consumer_group"}},
+           "group-configured[C03]": "self.consumer_group",
+           "caller-registered-as-waiter-first[C03]": "len(self._commit_ds) == 1"}},
        ensures={"no-group-fails[C03]": "implies(not self.consumer_group, called(result) and failed(result) and n_calls('_send_commit_request') == 0)",
                 "up-to-date-succeeds-at-once[C03]": "implies(self.consumer_group and (old(self._last_processed_offset) is None or "
                     "old(self._last_processed_offset) == old(self._last_committed_offset)), called(result) and not failed(result) "
                     "and n_calls('_send_commit_request') == 0)",
+                "new-request-when-idle[C03]": "implies(self.consumer_group and old(self._last_processed_offset) is not None and "
+                    "old(self._last_processed_offset) != old(self._last_committed_offset) and old(len(self._commit_ds)) == 0, "
+                    "n_calls('_send_commit_request') == 1)",
                 "busy-reports-in-progress[C03]": "implies(self.consumer_group and old(self._last_processed_offset) is not None and "
                     "old(self._last_processed_offset) != old(self._last_committed_offset) and old(len(self._commit_ds)) > 0, "
                     "called(result) and failed(result) and n_calls('_send_commit_request') == 0)"})
@@ -305,21 +380,41 @@ def shclosure(name, sig, **kw):
 
 shclosure("_handle_shutdown_commit_success", "(result: Any) -> None", expects=2, private_locals=["d"],
           requires=["self._shutdown_d is not None", "not called(self._shutdown_d)", "self._start_d is not None", "not self._stopping"],
+          # C13: "... and then stops": the consumer is stopped and only then is the shutdown reported, as a success
+          ensures={"stops-then-reports[C13]": "n_calls('stop') == 1 and n_events('Fired') == 1"},
+          checkpoints={"fire:callback#1": {"shutdown-over-before-reporting[C13]": "not self._shuttingdown"}},
           notes="runs when 'everything processed is committed': stops and reports success")
 
 shclosure("_commit_and_stop", "(result: Any) -> Any", expects=0, external_effect=True,
           requires=["self._shutdown_d is not None", "not called(self._shutdown_d)", "self._start_d is not None", "not self._stopping",
                     "self._shuttingdown"],
+          # C13: with a group everything processed is committed first and both outcomes of that commit are handled
+          ensures={"commits-first-with-a-group[C13, C16]":
+                   "n_calls('commit') == ite(self.consumer_group, 1, 0) and "
+                   "n_added('_handle_shutdown_commit_success') == n_calls('commit') and "
+                   "n_added('_handle_shutdown_commit_failure') == n_calls('commit') and "
+                   "n_calls('_handle_shutdown_commit_success') == 1 - n_calls('commit')"},
           checkpoints={"call:_handle_shutdown_commit_success#1": {"only-without-group[C13, C16]": "not self.consumer_group"}})
 
 shclosure("_handle_shutdown_commit_failure", "(failure: Ref_Failure) -> None", expects=0, private_locals=["d"],
+          # C13: a commit already in flight -> commit again when it completes (its result does not cover the latest progress);
+          # any other failure: the consumer is stopped and the shutdown reports the failure
+          ensures={"retries-behind-the-commit-in-flight[C13, C16]":
+                   "implies(old(exc_is(failure, 'OperationInProgress')), n_added('_commit_and_stop') == 1 and n_calls('stop') == 0 "
+                   "and n_events('Fired') == 0)",
+                   "stops-then-reports-the-failure[C13]":
+                   "implies(not old(exc_is(failure, 'OperationInProgress')), n_calls('stop') == 1 and n_events('Fired') == 1)"},
           requires=["self._shutdown_d is not None", "not called(self._shutdown_d)", "self._start_d is not None", "not self._stopping",
                     "implies(exc_is(failure, 'OperationInProgress'), promise(failure.value.deferred) == 1)"])
 
 method("shutdown", "(%s) -> Ref_Deferred" % SELF, props=["C13", "C16"],
        requires=["not self._stopping"],
        ensures={"refused-when-not-running-or-twice[C13]": "implies(old(self._start_d) is None or old(self._shutdown_d) is not None, "
-                                                          "called(result) and failed(result))"},
+                                                          "called(result) and failed(result))",
+                # C13: the commit-and-stop continuation is either hooked behind the processing in progress or run at once
+                "continuation-started[C13]": "implies(old(self._start_d) is not None and old(self._shutdown_d) is None, "
+                                             "n_added('_commit_and_stop') + n_calls('_commit_and_stop') == 1 and "
+                                             "n_added('_commit_and_stop') == ite(old(self._processor_d) is not None, 1, 0))"},
        checkpoints={"call:addCallback#1": {
            # C13: graceful shutdown waits for the processing in progress: the continuation is attached to the processor's Deferred
            "waits-for-processor[C13]": "self._shuttingdown and self._shutdown_d is not None and not called(self._shutdown_d)"}})
@@ -338,7 +433,17 @@ method("_handle_commit_error", "(%s, failure: Ref_Failure, commit_offset: int, r
            "call:_deliver_commit_result#2": {"committed-offset-untouched[C03]": "self._last_committed_offset == old(self._last_committed_offset)"},
            "call:_deliver_commit_result#3": {"committed-offset-untouched[C03]": "self._last_committed_offset == old(self._last_committed_offset)"},
            "call:_deliver_commit_result#4": {"committed-offset-untouched[C03]": "self._last_committed_offset == old(self._last_committed_offset)"}},
-       ensures={"backoff[C14]": "implies(n_events('Timer') == 1, event_arg('Timer', 0, 0) == min(retry_delay * 1.20205, self.retry_max_delay))"})
+       ensures={"backoff[C14]": "implies(n_events('Timer') == 1, event_arg('Timer', 0, 0) == min(retry_delay * 1.20205, self.retry_max_delay))",
+                # C03/C14: exactly one outcome - the waiters are told (our own cancellation while stopping, a non-Kafka error,
+                # a fencing error, the attempt limit) or one retry is scheduled, counted as the next attempt
+                "one-outcome[C03, C14]":
+                    "n_calls('_deliver_commit_result') == ite((old(self._stopping) and old(exc_is(failure, 't.CancelledError'))) or "
+                    "not old(exc_is(failure, 'KafkaError')) or old(exc_is(failure, 'IllegalGeneration')) or old(exc_is(failure, 'InvalidGroupId')) "
+                    "or old(exc_is(failure, 'UnknownMemberId')) or (old(self.request_retry_max_attempts) != 0 and "
+                    "attempt >= old(self.request_retry_max_attempts)), 1, 0) and "
+                    "n_events('Timer') == 1 - n_calls('_deliver_commit_result')",
+                "retry-is-the-next-attempt[C14]": "implies(n_events('Timer') == 1, event_arg('Timer', 0, 3) == attempt + 1 and "
+                                                  "event_arg('Timer', 0, 2) == event_arg('Timer', 0, 0))"})
 
 method("_auto_commit", "(%s, by_count: bool = False) -> None" % SELF, props=["C03"],
        checkpoints={"call:commit#1": {
@@ -346,12 +451,22 @@ method("_auto_commit", "(%s, by_count: bool = False) -> None" % SELF, props=["C0
            "only-while-running[C03,C13]": "not self._stopping and not self._shuttingdown and self._start_d is not None "
                                           "and self._last_processed_offset is not None and self.consumer_group",
            "count-threshold[C03]": "implies(by_count, self.auto_commit_every_n and (self._last_committed_offset is None or "
-                                   "self._last_processed_offset - self._last_committed_offset >= self.auto_commit_every_n))"}})
+                                   "self._last_processed_offset - self._last_committed_offset >= self.auto_commit_every_n))"}},
+       ensures={
+           # C03 "count- and time-triggered auto-commits": when a commit is due and none is in flight one is started, and its
+           # failure is reported; when one is in flight the trigger is queued behind it - never dropped
+           "commits-when-due[C03]":
+               "n_calls('commit') == ite((not old(self._stopping) and not old(self._shuttingdown) and old(self._start_d) is not None and old(self._last_processed_offset) is not None and self.consumer_group and not (by_count and not self.auto_commit_every_n)) and (not by_count or old(self._last_committed_offset) is None or old(self._last_processed_offset) - old(self._last_committed_offset) >= self.auto_commit_every_n) and len(old(self._commit_ds)) == 0, 1, 0)" ,
+           "commit-failure-reported[C03]": "n_added('_handle_auto_commit_error') == n_calls('commit')",
+           "queued-behind-the-commit-in-flight[C03]":
+               "implies((not old(self._stopping) and not old(self._shuttingdown) and old(self._start_d) is not None and old(self._last_processed_offset) is not None and self.consumer_group and not (by_count and not self.auto_commit_every_n)) and (not by_count or old(self._last_committed_offset) is None or old(self._last_processed_offset) - old(self._last_committed_offset) >= self.auto_commit_every_n) and len(old(self._commit_ds)) > 0, n_added('_retry_auto_commit') == 1 and "
+               "len(self._commit_ds) == len(old(self._commit_ds)) + 1)" })
 
 
 # ---- small callbacks: entry points that Twisted invokes; under contract so that the object invariant and the guarantees
 # (what every other unit relies on across excursions) are proved for them too, not assumed -------------------------------
 method("_retry_auto_commit", "(%s, result: Any, by_count: bool = False) -> Any" % SELF, props=["C03", "C13"],
+       ensures={"tries-again-and-passes-the-result-on[C03]": "n_calls('_auto_commit') == 1 and result == p_result"},
        notes="hooked behind a commit that was in progress: tries the automatic commit again and passes the result on")
 
 method("_handle_auto_commit_error", "(%s, failure: Ref_Failure) -> None" % SELF, props=["C03", "C13"],
